@@ -228,7 +228,7 @@ macro_rules! gen_builder {
           }
           Src::Iter(items) => from_iter(items.clone()).on_error_map(inf).box_it(),
           Src::IterCount(id, cap) => {
-            from_iter(CountIter { id: *id, cap: *cap, i: 0, log }).on_error_map(inf).box_it()
+            from_iter(CountIterable { id: *id, cap: *cap, log }).on_error_map(inf).box_it()
           }
           Src::Of(v) => of(v.clone()).on_error_map(inf).box_it(),
           Src::OfOpt(v) => of_option(v.clone()).on_error_map(inf).box_it(),
